@@ -66,6 +66,7 @@ type c14Reply struct {
 	Accept     string   `json:"accept_kind"`
 	BodyLen    int      `json:"body_len"`
 	Malformed  int      `json:"malformed,omitempty"`
+	Ext        int      `json:"extensions_header,omitempty"` // 1,2: permessage-deflate lacking no_context_takeover parameters; 3: another extension
 	Class      string   `json:"class"`
 }
 
@@ -175,6 +176,9 @@ func runC14(ctx *core.Ctx, out *core.Out) {
 	}
 	if len(cs.Subs) == 0 && r.Chance(1, 4) {
 		cs.Hdr["Sec-Websocket-Protocol"] = []string{"caller-proto"}
+		if r.Bool() {
+			cs.Hdr["Sec-Websocket-Protocol"] = []string{"p1", "p2"}
+		}
 	}
 	dials := 0
 	var conns []*xport.Conn
@@ -186,7 +190,19 @@ func runC14(ctx *core.Ctx, out *core.Out) {
 		}
 		out.Violate("C14:"+sig, what, dd)
 	}
+	// one header map, reused for every dial of the case as an application's reconnect
+	// loop would (the bad-URL / forbidden-header probes get their own copy)
+	var shared http.Header
 	hdr := func() http.Header {
+		if shared == nil {
+			shared = http.Header{}
+			for k, v := range cs.Hdr {
+				shared[k] = append([]string(nil), v...)
+			}
+		}
+		return shared
+	}
+	fresh := func() http.Header {
 		h := http.Header{}
 		for k, v := range cs.Hdr {
 			h[k] = append([]string(nil), v...)
@@ -235,7 +251,7 @@ func runC14(ctx *core.Ctx, out *core.Out) {
 		cs.Forbidden = k
 	}
 	if cs.BadURL != "" || cs.Forbidden != "" {
-		h := hdr()
+		h := fresh()
 		url := cs.URL
 		if cs.BadURL != "" {
 			url = cs.BadURL
@@ -354,8 +370,14 @@ func runC14(ctx *core.Ctx, out *core.Out) {
 			return
 		}
 	case cs.Hdr["Sec-Websocket-Protocol"] != nil:
-		if len(pv) != 1 || pv[0] != "caller-proto" {
-			fail("subprotocols-header", fmt.Sprintf("caller-supplied Sec-Websocket-Protocol not sent: %q", pv), rq)
+		var got []string
+		for _, l := range pv {
+			for _, e := range strings.Split(l, ",") {
+				got = append(got, strings.TrimSpace(e))
+			}
+		}
+		if core.J(got) != core.J(cs.Hdr["Sec-Websocket-Protocol"]) {
+			fail("subprotocols-header", fmt.Sprintf("caller-supplied Sec-Websocket-Protocol %q went out as %q", cs.Hdr["Sec-Websocket-Protocol"], pv), rq)
 			return
 		}
 	case len(pv) != 0:
@@ -423,6 +445,9 @@ func runC14(ctx *core.Ctx, out *core.Out) {
 	if r.Chance(1, 15) {
 		rp.Malformed = 1 + r.Intn(5)
 	}
+	if r.Chance(1, 5) {
+		rp.Ext = 1 + r.Intn(3)
+	}
 	class := cValid
 	var bad []string
 	if rp.Status != 101 {
@@ -447,6 +472,9 @@ func runC14(ctx *core.Ctx, out *core.Out) {
 		}
 	default:
 		bad = append(bad, "accept")
+	}
+	if (rp.Ext == 1 || rp.Ext == 2) && class == cValid {
+		class = cUnclear // a good reply with unusable compression parameters is C15's business
 	}
 	if len(bad) > 0 {
 		class = cInvalid
@@ -501,6 +529,14 @@ func runC14(ctx *core.Ctx, out *core.Out) {
 		case "two-lines":
 			fmt.Fprintf(&b, "Sec-WebSocket-Accept: %s\r\nSec-WebSocket-Accept: %s\r\n", acc, "AAAAAAAAAAAAAAAAAAAAAAAAAAA=")
 		}
+		switch rp.Ext {
+		case 1:
+			fmt.Fprintf(&b, "Sec-WebSocket-Extensions: permessage-deflate\r\n")
+		case 2:
+			fmt.Fprintf(&b, "Sec-WebSocket-Extensions: permessage-deflate; server_no_context_takeover\r\n")
+		case 3:
+			fmt.Fprintf(&b, "Sec-WebSocket-Extensions: foo; bar=\"x\"\r\n")
+		}
 		fmt.Fprintf(&b, "X-Reply-Marker: m-%d\r\n", ctx.Idx)
 		if rp.Status != 101 || rp.BodyLen > 0 {
 			fmt.Fprintf(&b, "Content-Length: %d\r\n", len(body))
@@ -510,6 +546,26 @@ func runC14(ctx *core.Ctx, out *core.Out) {
 		return []xport.Chunk{{Data: b.Bytes()}}
 	})
 	if req2 != nil {
+		// the same URL, Dialer and header map: the second request must be the first one with another key
+		strip := func(b []byte) string {
+			var keep []string
+			for _, l := range strings.Split(string(b), "\r\n") {
+				if !strings.HasPrefix(strings.ToLower(l), "sec-websocket-key:") {
+					keep = append(keep, l)
+				}
+			}
+			return strings.Join(keep, "\r\n")
+		}
+		if strip(req1) != strip(req2) {
+			fail("request-depends-on-earlier-dial", "a second Dial with the same URL, Dialer and header map wrote a different request (apart from the key)", map[string]interface{}{"first": string(req1), "second": string(req2)})
+			return
+		}
+		for k, v := range cs.Hdr {
+			if core.J(shared[k]) != core.J(v) {
+				fail("caller-header-map-modified", fmt.Sprintf("Dial modified the caller's header map: %s is now %q, was %q", k, shared[k], v), nil)
+				return
+			}
+		}
 		k2 := reqHeader(req2, "Sec-WebSocket-Key")
 		keysMu.Lock()
 		dup := keysSeen[k2]
